@@ -174,6 +174,12 @@ partial def monitorLoop (h : IO.FS.Stream) (out : IO.FS.Stream) : IO Unit := do
             for (name, v) in Mon.restartKeeps s0 s1 do
               out.putStrLn s!"V {n} {name} {v}"
               viol := viol + 1
+            for v in Mon.restartCtxs s0 s1 do
+              out.putStrLn s!"V {n} lifecycle {v}"
+              viol := viol + 1
+            for v in Mon.counts s1 do
+              out.putStrLn s!"V {n} counts {v}"
+              viol := viol + 1
             ghost := ghost.map (fun e => (e.1, { e.2 with lastStart := none, lastExpiry := none, clean := false, restarted := true }))
         | _, _, _ => out.putStrLn s!"P {n} genesis op before genesis"; viol := viol + 1
       else if opl.startsWith "modcall " || opl.startsWith "modbind " then
